@@ -47,7 +47,10 @@ pub fn meta(_tier: Tier) -> PropMeta {
     }
 }
 
-const TAIL: &str = "do tailf() start return 7 shout(\"dead\") end\nmake unusedv get 5\nshout(tailf() add 1)\n";
+/// every program ends with: a function with dead code, an unused variable, a computed value, and
+/// a callee that reads a global from a caller holding a same-named local (100 under lexical
+/// binding, 200 under dynamic binding)
+const TAIL: &str = "do tailf() start return 7 shout(\"dead\") end\nmake unusedv get 5\nshout(tailf() add 1)\nmake bx get 100\ndo bcallee() start shout(bx) end\ndo bcaller() start make bx get 200 bcallee() shout(bx) end\nbcaller()\n";
 
 #[derive(Clone, Copy, Debug, PartialEq, Eq)]
 enum Family {
@@ -120,7 +123,7 @@ impl Family {
                     s.push_str("shout(1)\n");
                 }
                 out = vec![1.0; n];
-                own = Some(("statements", n as u64 + 5));
+                own = Some(("statements", n as u64 + 13));
             }
             Family::Locals => {
                 // parameters are locals that cost no ops: 32 functions share n parameters
@@ -136,14 +139,14 @@ impl Family {
                     }
                     s.push_str(") start end\n");
                 }
-                own = Some(("locals", n as u64 + 1));
+                own = Some(("locals", n as u64 + 3));
             }
             Family::Scopes => {
                 for _ in 0..n {
                     s.push_str("start end\n");
                 }
-                // root scope + tail function (parameter scope + body) + n
-                own = Some(("scopes", n as u64 + 3));
+                // root scope + the tail's three functions (parameter scope + body each) + n
+                own = Some(("scopes", n as u64 + 7));
             }
             Family::Calls => {
                 s.push_str("do id(q) start return q end\n");
@@ -164,7 +167,7 @@ impl Family {
                     s.push_str(")\n");
                     out.push(rest as f64);
                 }
-                own = Some(("direct user calls", n as u64 + 1));
+                own = Some(("direct user calls", n as u64 + 3));
             }
             Family::BlocksPerFunction => {
                 for _ in 0..n {
@@ -188,15 +191,15 @@ impl Family {
                 }
                 // documented bound: functions x (functions + 2 x locals + 2), with the root, the
                 // tail function and the tail's one local
-                let f = n as u64 + 2;
-                own = Some(("summary events", f * (f + 2 + 2)));
+                let f = n as u64 + 4;
+                own = Some(("summary events", f * (f + 2 * 3 + 2)));
             }
             Family::SummaryEventsWithLocals => {
                 for k in 0..n {
                     s.push_str(&format!("do sl{k}(p) start end\n"));
                 }
-                let f = n as u64 + 2;
-                let l = n as u64 + 1;
+                let f = n as u64 + 4;
+                let l = n as u64 + 3;
                 own = Some(("summary events", f * (f + 2 * l + 2)));
             }
             Family::LivenessEvents => {
@@ -215,7 +218,7 @@ impl Family {
             }
         }
         s.push_str(TAIL);
-        out.push(8.0);
+        out.extend([8.0, 100.0, 200.0]);
         (s, out, own)
     }
 }
@@ -347,7 +350,7 @@ impl Space for LimitSpace {
             Family::Statements => caps.max_statements as usize - 4,
             Family::Locals => caps.max_locals as usize,
             Family::Scopes => caps.max_scopes as usize - 2,
-            Family::Calls => caps.max_direct_user_calls as usize,
+            Family::Calls => caps.max_direct_user_calls as usize - 2,
             Family::BlocksPerFunction => caps.max_blocks_per_function as usize / 3,
             Family::TotalBlocks => caps.max_scopes as usize - 20,
             Family::SummaryEvents => (caps.max_summary_events as f64).sqrt() as usize - 3,
@@ -518,8 +521,9 @@ impl Space for LimitSpace {
             }
             let out = String::from_utf8_lossy(&r.stdout);
             let printed: Vec<&str> = out.lines().filter(|l| l.parse::<f64>().is_ok()).collect();
-            if printed.len() != want_out.len() || printed.last() != Some(&"8") {
-                return mk("naija-results-differ", json!({"printed": printed.len(), "expected": want_out.len()}));
+            let tail_ok = printed.len() >= 3 && printed[printed.len() - 3..] == ["8", "100", "200"];
+            if printed.len() != want_out.len() || !tail_ok {
+                return mk("naija-results-differ", json!({"printed": printed.len(), "expected": want_out.len(), "last_three": printed.iter().rev().take(3).collect::<Vec<_>>()}));
             }
             let has_resource = out.contains(resource_msg);
             if has_resource != (n >= flip) {
@@ -650,7 +654,7 @@ impl Structure {
         // `cn get 7` is dead only if the callee is known not to read `cn`
         s.push_str(&format!("make cn get 1\nshout(cn)\ncn get 7\nshout({entry})\ncn get 2\nshout(cn)\n"));
         s.push_str(TAIL);
-        (s, vec![1.0, 0.0, 2.0, 8.0])
+        (s, vec![1.0, 0.0, 2.0, 8.0, 100.0, 200.0])
     }
 }
 
